@@ -1990,7 +1990,8 @@ class Denormalize(Transform):
         scale = jax.tree_util.tree_map(lambda _min, _max: (_max - _min) / 2, min_params, max_params)
         zero_filter = jax.tree_util.tree_map(lambda _scale: _scale == 0.0, scale)
         try:
-            if onp.array(jax.tree_util.tree_reduce(jnp.logical_or, zero_filter)).all():
+            # Check leaf by leaf: leaves may have different (non-broadcastable) shapes, and there may be no array leaf at all.
+            if any(onp.array(_zero).any() for _zero in jax.tree_util.tree_leaves(zero_filter)):
                 raise ValueError(
                     "The scale cannot be zero. Hint: Check if there are leafs with 'True' in the following zero_filter: "
                     f"{zero_filter}"
